@@ -678,7 +678,8 @@ def o_c11_packet(scn, obs, runner):
 
 def o_c11_total(scn, obs, runner):
     """Whole-command limit: shell / exec_out / root with timeout_s = t end within t plus ONE more iteration of the stream loop (the limit is
-    checked after every iteration) plus the OPEN exchange, however much traffic the device keeps sending on the stream."""
+    checked after every iteration) plus the OPEN exchange, however much traffic the device keeps sending on the stream.  The bound is the one
+    PROVED for the model (C11Api.lean, `C11_shell_total`)."""
     fails = []
     prev_now = scn.get("now", 1 << 40)
     for i, (op, o) in enumerate(zip(scn["ops"], obs)):
@@ -696,7 +697,7 @@ def o_c11_total(scn, obs, runner):
         eff_rt = min(rt, t)
         eff_tt = eff_rt if tt is None else min(tt, eff_rt)
         per_wait = eff_rt + 2 * (eff_rt + max(D, eff_tt))
-        bound = t + 2 * per_wait + 10 * D
+        bound = t + 2 * per_wait + 3 * (eff_rt + max(D, eff_tt))      # theorem C11_shell_total: T + (2S + W) + (W + S), S = R + max(D, tau)
         if elapsed > bound:
             fails.append(dict(op=i, why="%s with timeout_s = %d ticks took %d ticks (> %d = limit + the OPEN exchange + one more packet wait; rt=%s tt=%s, call cost %d)" % (
                 op["op"], t, elapsed, bound, rt, tt, D)))
